@@ -229,6 +229,7 @@ package storage
 //@ func (*events).LogCompacted
 //@   requires e != nil && !chanClosed(e.eventsCh)      // the event channel is never closed
 //@   before send assert [C06.event.faithful] typeIs(sent, logCompacted) && asType(sent, logCompacted).ShardID == info.ShardID && asType(sent, logCompacted).ReplicaID == info.ReplicaID && sentTo == e.eventsCh
+//@   ensures [C06.event.sent+C19] len(e.eventsCh) == old(len(e.eventsCh)) + 1 || world.lastSel == e.stopc      // every report is put on the channel - dropped only when the node host is shutting down
 //@   modifies family(CH_len)
 
 // leader and membership reports (C19): each is put on the event channel as an event of its own kind,
@@ -237,22 +238,27 @@ package storage
 //@ func (*events).LeaderUpdated
 //@   requires e != nil && !chanClosed(e.eventsCh)
 //@   before send assert [C19.event.leader] typeIs(sent, leaderUpdated) && asType(sent, leaderUpdated).ShardID == info.ShardID && asType(sent, leaderUpdated).LeaderID == info.LeaderID && asType(sent, leaderUpdated).Term == info.Term && sentTo == e.eventsCh
+//@   ensures [C06.event.sent+C19] len(e.eventsCh) == old(len(e.eventsCh)) + 1 || world.lastSel == e.stopc      // every report is put on the channel - dropped only when the node host is shutting down
 //@   modifies family(CH_len)
 //@ func (*events).MembershipChanged
 //@   requires e != nil && !chanClosed(e.eventsCh)
 //@   before send assert [C19.event.membership] typeIs(sent, membershipChanged) && asType(sent, membershipChanged).ShardID == info.ShardID && sentTo == e.eventsCh
+//@   ensures [C06.event.sent+C19] len(e.eventsCh) == old(len(e.eventsCh)) + 1 || world.lastSel == e.stopc      // every report is put on the channel - dropped only when the node host is shutting down
 //@   modifies family(CH_len)
 //@ func (*events).NodeReady
 //@   requires e != nil && !chanClosed(e.eventsCh)
 //@   before send assert [C19.event.ready] typeIs(sent, nodeReady) && asType(sent, nodeReady).ShardID == info.ShardID && sentTo == e.eventsCh
+//@   ensures [C06.event.sent+C19] len(e.eventsCh) == old(len(e.eventsCh)) + 1 || world.lastSel == e.stopc      // every report is put on the channel - dropped only when the node host is shutting down
 //@   modifies family(CH_len)
 //@ func (*events).NodeUnloaded
 //@   requires e != nil && !chanClosed(e.eventsCh)
 //@   before send assert [C19.event.unloaded] typeIs(sent, nodeUnloaded) && asType(sent, nodeUnloaded).ShardID == info.ShardID && sentTo == e.eventsCh
+//@   ensures [C06.event.sent+C19] len(e.eventsCh) == old(len(e.eventsCh)) + 1 || world.lastSel == e.stopc      // every report is put on the channel - dropped only when the node host is shutting down
 //@   modifies family(CH_len)
 //@ func (*events).NodeDeleted
 //@   requires e != nil && !chanClosed(e.eventsCh)
 //@   before send assert [C06.event.deleted+C19] typeIs(sent, nodeDeleted) && asType(sent, nodeDeleted).ShardID == info.ShardID && asType(sent, nodeDeleted).ReplicaID == info.ReplicaID && sentTo == e.eventsCh
+//@   ensures [C06.event.sent+C19] len(e.eventsCh) == old(len(e.eventsCh)) + 1 || world.lastSel == e.stopc      // every report is put on the channel - dropped only when the node host is shutting down
 //@   modifies family(CH_len)
 
 // the dispatcher: a compaction event of THIS node's replica invalidates the cache of exactly that shard
